@@ -242,7 +242,7 @@ fn relation(model: &Model, kind: &str, actor: &str, victim: &str) -> String {
     };
     // lineage matters only where shared files are the mechanism (cleanup of a source)
     if kind == "cleanup" {
-        if lineage == "descendant" && !names.contains("internal-dir") && names != "nested-under-actor" {
+        if lineage == "descendant" && !names.contains("internal-dir") {
             // shared files are the mechanism; the name relation is irrelevant
             "descendant".to_string()
         } else {
@@ -617,13 +617,31 @@ impl Sut for Refs {
             let (problems, skipped, reread) = block_on(check_all(&env, &model, &mut reads, filter));
             self.skipped.fetch_add(skipped, std::sync::atomic::Ordering::Relaxed);
             self.reread.fetch_add(reread, std::sync::atomic::Ordering::Relaxed);
+            let mut not_judged = false;
             for (victim, ver, what) in problems {
                 let rel = relation(before_model, kind, &actor, &victim);
-                violations.push(self.viol(
-                    "isolation",
-                    &format!("isolation/{kind}/{rel}"),
-                    format!("after {op:?}: ref {victim:?} version {ver} {what}"),
-                ));
+                // one key per root-cause class; the symptom goes into `what`
+                let key = if rel.contains("internal-dir") {
+                    // `x/data`, `x/_versions`, ... live inside branch x's own directories
+                    "layout/branch-named-like-internal-dir-of-other-branch".to_string()
+                } else if kind == "delete_branch" && rel == "char-prefix" {
+                    "delete_branch/cleanup-path-compares-characters".to_string()
+                } else if kind == "cleanup" && rel == "descendant" {
+                    if actor.is_empty() {
+                        // maintenance on the MAIN table is not covered by the property statement
+                        // ("maintenance on one branch or shallow clone never change ..."); counted only
+                        not_judged = true;
+                        continue;
+                    }
+                    "cleanup/removes-files-still-read-by-descendant".to_string()
+                } else {
+                    format!("isolation/{kind}/{rel}")
+                };
+                violations.push(self.viol("isolation", &key, format!("after {op:?}: ref {victim:?} version {ver} {what} [relation of victim to the op's ref: {rel}]")));
+            }
+            if not_judged && violations.is_empty() {
+                // model and table now disagree by a not-judged effect: do not expand below
+                return Step { next: None, outcome: format!("{outcome}+main-cleanup-breaks-descendant(not-judged)"), violations };
             }
             // a tag whose target became unreadable is implied by an isolation problem: do not report it twice
             let isolation_ok = violations.is_empty();
@@ -663,9 +681,16 @@ impl Sut for Refs {
                         .max_by_key(|b| b.len())
                         .unwrap_or_default();
                     let rel = relation(&st.model, kind, name, &owner);
+                    let key = if rel == "char-prefix" {
+                        "delete_branch/cleanup-path-compares-characters".to_string()
+                    } else if rel.contains("internal-dir") {
+                        "layout/branch-named-like-internal-dir-of-other-branch".to_string()
+                    } else {
+                        format!("delete_branch/foreign-paths/{rel}")
+                    };
                     violations.push(self.viol(
                         "delete-only-own-storage",
-                        &format!("delete_branch/foreign-paths/{rel}"),
+                        &key,
                         format!("delete_branch({name:?}) removed {} object(s) outside tree/{name}/, e.g. {} (owner: branch {owner:?})", foreign.len(), vstore::norm_path(&foreign[0])),
                     ));
                 }
@@ -772,16 +797,28 @@ async fn apply(env: &Env, model: &mut Model, reads: &mut Reads, op: &Op) -> Appl
             };
             let shape = if parent.is_empty() { "from-main" } else if via == parent { "from-branch-via-own-handle" } else { "source-branch-resolved-under-handle-path" };
             let _ = by_tag;
+            const CLONE_SOURCE_KEY: &str = "clone-source/branch-resolved-under-handle-path";
             match res {
                 Err(e) if model.zombies.contains_key(name) && e.to_string().contains("already exists") => {
                     return Applied { outcome: format!("error-name-occupied-by-leftovers-of-deleted-branch({})", model.zombies[name]), violations: vec![] };
                 }
                 Err(e) => {
-                    violations.push(v("new-branch-reads-source", &format!("create_branch/{shape}/{}", if shape.starts_with("source") { "wrong-source" } else { "failed" }), format!("{op:?} failed: {}", first_line(&e.to_string()))));
+                    violations.push(v("new-branch-reads-source", &if shape.starts_with("source") { CLONE_SOURCE_KEY.to_string() } else { format!("create_branch/{shape}/failed") }, format!("{op:?} failed: {}", first_line(&e.to_string()))));
                     "error".to_string()
                 }
                 Ok(b) => {
                     let nv = b.version().version;
+                    // the name of a deleted branch whose directory was left behind: the new branch must not
+                    // pick up the old branch's manifests
+                    if let Some(why) = model.zombies.get(name).cloned() {
+                        // outside the property statement (a leak surfacing on name re-use): counted, not judged,
+                        // and not explored further (the new branch's latest is a manifest of the deleted one)
+                        let latest = open_ref(env, name).await.map(|l| l.version().version).unwrap_or(0);
+                        if latest != nv {
+                            return Applied { outcome: format!("error-recreated-branch-latest-is-leftover-of-deleted-branch({why})"), violations: vec![] };
+                        }
+                        model.zombies.remove(name);
+                    }
                     model.refs.insert(name.clone(), RefModel { rows: BTreeMap::new(), snaps: BTreeMap::new(), latest: nv, origin: Some((parent.clone(), *version)) });
                     record_new_version(env, model, reads, name, nv, expect, &mut violations, &format!("create_branch/{shape}")).await;
                     "ok".to_string()
@@ -804,7 +841,7 @@ async fn apply(env: &Env, model: &mut Model, reads: &mut Reads, op: &Op) -> Appl
             let shape = if from.is_empty() { "from-main" } else if via == from { "from-branch-via-own-handle" } else { "source-branch-resolved-under-handle-path" };
             match res {
                 Err(e) => {
-                    violations.push(v("new-clone-reads-source", &format!("shallow_clone/{shape}/{}", if shape.starts_with("source") { "wrong-source" } else { "failed" }), format!("{op:?} failed: {}", first_line(&e.to_string()))));
+                    violations.push(v("new-clone-reads-source", &if shape.starts_with("source") { "clone-source/branch-resolved-under-handle-path".to_string() } else { format!("shallow_clone/{shape}/failed") }, format!("{op:?} failed: {}", first_line(&e.to_string()))));
                     "error".to_string()
                 }
                 Ok(c) => {
@@ -926,7 +963,7 @@ async fn record_new_version(env: &Env, model: &mut Model, reads: &mut Reads, r: 
                 if rows != expect {
                     violations.push(v(
                         "new-version-reads-expected",
-                        &format!("{key_prefix}/{}", if key_prefix.contains("source-branch-resolved") { "wrong-source" } else { "wrong-rows" }),
+                        &if key_prefix.contains("source-branch-resolved") { "clone-source/branch-resolved-under-handle-path".to_string() } else { format!("{key_prefix}/wrong-rows") },
                         format!("ref {r:?} version {nv} reads uids {:?}, expected {:?}", rows.iter().map(|x| x.uid).collect::<Vec<_>>(), expect.iter().map(|x| x.uid).collect::<Vec<_>>()),
                     ));
                 }
